@@ -727,6 +727,8 @@ pub mod verif_net {
         type Item = Frame;
         type Error = anyhow::Error;
         fn decode(&mut self, src: &mut BytesMut) -> Result<Option<Frame>, anyhow::Error> { Ok(self.0.decode(src)?.map(Frame)) }
+        // whatever the real codec does at the end of the stream (by default: decode, then complain about leftover bytes)
+        fn decode_eof(&mut self, src: &mut BytesMut) -> Result<Option<Frame>, anyhow::Error> { Ok(self.0.decode_eof(src)?.map(Frame)) }
     }
     impl Encoder<Frame> for FrameCodec {
         type Error = anyhow::Error;
